@@ -1,4 +1,5 @@
 //! vnet: sync-level monitors (C04 C05 C09 C11 C17, sync parts of C02 C03 C07 C08 C20).
+mod c03;
 mod c04;
 mod c09;
 mod c11;
@@ -18,6 +19,7 @@ fn main() {
     let mut rep = vkit::Reporter::new(&prop, args.out.clone());
     let rt = tokio::runtime::Builder::new_multi_thread().worker_threads(2).enable_all().build().unwrap();
     match args.check.as_str() {
+        "c03" => rt.block_on(c03::run(&args, &mut rep)),
         "c04" => rt.block_on(c04::run(&args, &mut rep, "C04")),
         "c05" => rt.block_on(c04::run(&args, &mut rep, "C05")),
         "c09" => rt.block_on(c09::run(&args, &mut rep)),
